@@ -1,14 +1,14 @@
 package sim
 
 import (
-	"os"
-	"encoding/json"
 	"context"
 	"database/sql"
 	"database/sql/driver"
+	"encoding/json"
 	"errors"
 	"fmt"
 	"io"
+	"os"
 	"regexp"
 	"sort"
 	"strings"
@@ -153,7 +153,9 @@ type txOp struct {
 
 func (c *simConn) Prepare(q string) (driver.Stmt, error) { return &simStmt{c: c, q: q}, nil }
 func (c *simConn) Close() error                          { return nil }
-func (c *simConn) Begin() (driver.Tx, error)             { return c.BeginTx(context.Background(), driver.TxOptions{}) }
+func (c *simConn) Begin() (driver.Tx, error) {
+	return c.BeginTx(context.Background(), driver.TxOptions{})
+}
 
 func (c *simConn) BeginTx(ctx context.Context, opts driver.TxOptions) (driver.Tx, error) {
 	o := c.s.gate(ctx, "begin")
@@ -527,7 +529,16 @@ func likeRunes(p, s []rune) bool {
 
 func (c *simConn) query(ctx context.Context, q string, args []driver.Value) (driver.Rows, error) {
 	q = norm(q)
-	o := c.s.gate(ctx, "query:"+firstWords(q, 4))
+	qkey := "query:" + firstWords(q, 4)
+	if m := reSelect.FindStringSubmatch(q); m != nil && len(args) > 0 {
+		// name the addressed row(s): table and the bound values (task id, collection id, ...)
+		var as []string
+		for _, a := range args {
+			as = append(as, fmt.Sprint(a))
+		}
+		qkey += ":" + m[2] + ":" + strings.Join(as, "/")
+	}
+	o := c.s.gate(ctx, qkey)
 	if o.CtxErr != nil {
 		return nil, o.CtxErr
 	}
